@@ -15,7 +15,7 @@ META = dict(
                 "skeleton keeping directed edges and v-structures): pdag_to_dag must return a member of E / raise ValueError "
                 "iff E is empty; maximally_orient must return exactly the union graph of E (directed iff all members agree), "
                 "which implies same skeleton, directed edges kept, soundness, completeness and an unchanged extension set.",
-    bounds=dict(quick="PDAGs p <= 3 all; p = 4 all 3,608 with acyclic directed part; p = 5 'hub' PDAGs (node 0 joined to all other nodes by undirected edges, all 4^6 states of the remaining pairs) for maximally_orient",
+    bounds=dict(quick="PDAGs p <= 3 all; p = 4 all 3,608 with acyclic directed part; p = 5 'hub' PDAGs (node 0 joined to all other nodes by undirected edges, all 4^6 states of the remaining pairs) for maximally_orient; wide: 4-node PDAGs with <= 4 edges embedded at nodes 11,1,9,0 of a 12-node graph",
                 thorough="as quick plus p = 5 PDAGs in which node 0 has at least 3 undirected edges and p = 5 PDAGs with at most 6 edges"),
     outside=["PDAGs on 5 nodes outside the stated cubes; p > 5", "PDAGs whose directed part is cyclic"],
     stubs=["numpy -> symnp"],
@@ -83,6 +83,9 @@ def obligations(tier):
                          expect=('has extension', 'no extension'), weight=40))
     ob.append(Obligation('orient_p5_hub', h_pdag(False), hub_cubes(5, 3, 3),
                          "maximally_orient on 5-node PDAGs where node 0 has undirected edges to all others (Meek rules 3/4 territory)",
+                         expect=('has extension', 'no extension'), weight=60))
+    ob.append(Obligation('pdag_wide_p12', h_pdag(True), I.embed_cubes(12, [11, 1, 9, 0], 3, extra=dict(max_edges=4)),
+                         "4-node binary PDAGs with <= 4 edges embedded at nodes 11, 1, 9, 0 of a 12-node graph",
                          expect=('has extension', 'no extension'), weight=60))
     if tier == 'thorough':
         ob.append(Obligation('pdag_p5_le6', h_pdag(True), I.pair_cubes(5, 3, dict(max_edges=6)),
